@@ -256,6 +256,7 @@ pub struct DecryptableScalarProof {
     /// The byte proofs
     pub byte_proofs: [ByteProof; 32],
     /// The range proof
+    #[serde(with = "crate::presentation::range::bulletproof_serde")]
     pub range_proof: RangeProof,
     /// The byte ciphertext
     pub byte_ciphertext: Ciphertext,
